@@ -492,7 +492,9 @@ def midi_ticks_to_seconds(
         will be a numpy array with dtype float.
     """
 
-    time_in_seconds = (mpq * midi_ticks) / float(1e6 * ppq)
+    # multiply in floating point: with an integer tick array (e.g. the int32
+    # "onset_tick" column of a note array) `mpq * midi_ticks` overflows
+    time_in_seconds = (float(mpq) * midi_ticks) / float(1e6 * ppq)
 
     return time_in_seconds
 
